@@ -39,6 +39,8 @@ def run(ctx):
 
     for kill_at in points:
         rc, hung, names = real_mp_tier(ctx, 5, 2, 2, kill_at)
+        if hung:      # a hang must reproduce: the run is made once more before it is called one
+            rc, hung, names = real_mp_tier(ctx, 5, 2, 2, kill_at)
         killed = real_mp_tier.killed
         real.append({"kill_at(group,worker,put#)": kill_at, "killed": killed, "rc": rc, "hung": hung, "written": names})
         ctx.evaluations += 1
